@@ -267,6 +267,36 @@ func (h *verifWHist) fieldsEventRow(row map[string]interface{}, e *verifWEvent) 
 	}
 }
 
+// tokenRow: what the token contract answers right now, for the Coq side (abstract form "ans", raw form "raw")
+func (h *verifWHist) tokenRow(id int, mc *verifWMc) map[string]interface{} {
+	var ans interface{} = "err"
+	if !mc.apiErr {
+		l := []interface{}{}
+		for _, c := range mc.calls {
+			if c.failed {
+				l = append(l, nil)
+				continue
+			}
+			rs := []interface{}{}
+			for _, v := range c.rets {
+				switch v.Typ {
+				case "ByteVec":
+					rs = append(rs, []interface{}{"b", v.Val})
+				case "U256":
+					rs = append(rs, []interface{}{"n", v.Val})
+				default:
+					rs = append(rs, []interface{}{"o"})
+				}
+			}
+			l = append(l, rs)
+		}
+		ans = l
+	}
+	row := map[string]interface{}{"id": id, "ans": ans, "shape": mc.shape}
+	h.fieldsTokenRow(row, id, mc)
+	return row
+}
+
 func (h *verifWHist) fieldsTokenRow(row map[string]interface{}, id int, mc *verifWMc) {
 	row["idhex"] = hex.EncodeToString(h.tokenIdBytes(id))
 	if mc.apiErr {
@@ -303,6 +333,9 @@ func verifWAlsoC11(mon []string) []string {
 				out = append(out, "C11|pipeline-"+strings.SplitN(m, "|", 3)[1]+"|"+strings.SplitN(m, "|", 3)[2])
 			}
 		}
+		if (strings.HasPrefix(m, "C08|poll-attest|") || strings.HasPrefix(m, "C08|reobs-attest|")) && strings.Contains(m, "native token id") {
+			out = append(out, "C11|pipeline-native-attest-forwarded|"+strings.SplitN(m, "|", 3)[2])
+		}
 	}
 	return out
 }
@@ -322,6 +355,11 @@ func (h *verifWHist) fieldsBatchMon(hist string, from, to int32, buids []int) {
 		switch {
 		case (!e.conv || e.index != 0) && in[e.uid]:
 			h.flag("C11", "pipeline-unfit-kept", fmt.Sprintf("%s: event %d whose values do not fit (%s) was converted and kept", hist, e.uid, e.what))
+		case e.conv && e.index == 0 && e.kind == "attest" && e.tok != nil && e.tok.id == 0 && in[e.uid] &&
+			!(e.tok.dec == 18 && verifWTrim(e.tok.sym) == "ALPH" && verifWTrim(e.tok.name) == "Alephium"):
+			// the payload must decode to what was encoded; then it differs from the native token's fixed metadata and is dropped
+			h.flag("C11", "pipeline-native-attest", fmt.Sprintf("%s: event %d, an attestation of the all-zero (native) token id whose payload says %d/%s/%s, was accepted as if it said 18/ALPH/Alephium",
+				hist, e.uid, e.tok.dec, verifWTrim(e.tok.sym), verifWTrim(e.tok.name)))
 		case e.conv && e.index == 0 && e.kind != "attest" && e.sender == 1 && !in[e.uid]:
 			h.flag("C11", "pipeline-fit-rejected", fmt.Sprintf("%s: event %d (target %d, sequence %d, level %d, %d payload bytes) fits but was not kept", hist, e.uid, e.target, e.seq, e.cl, len(e.payload)))
 		}
